@@ -407,6 +407,7 @@ SetupStep ==
   CASE r.op = "CreateTopic" -> CreateTopic(r.name)
     [] r.op = "CreateSub" -> CreateSub(r.c)
     [] r.op = "Publish" -> Publish(r.topic, r.msgs)
+    [] r.op = "SetDelay" -> SetDelay(r.name, r.d)
 
 SeekTargets == IF S.now <= 8 THEN 0..(S.now + 1)
                ELSE {0, S.now + 1} \cup {S.now - k : k \in {0, 1, 2, 4, 7}}
